@@ -151,4 +151,34 @@ def run(R, sname, conf):
                         cov["first_divergences_elsewhere"] += 1
         R.cov["evaluations"] += cov["steps"]
         R.cov["traces_validated_against_impl"] += cov["cases"]
+    # violation protocol: a tie is broken but no concrete failing input yet -> search more histories with the oracles
+    if R.problems and not R.violations:
+        budget = 8 if tier == "quick" else 40
+        searched = 0
+        for extra in range(1, budget + 1):
+            seed = 1000003 * extra + R.seed
+            with tempfile.NamedTemporaryFile("w+", suffix=".txt", delete=False) as tf:
+                path = tf.name
+            extra_args = []
+            for k, v in conf.get("args", {}).items():
+                extra_args += ["--" + k, str(v)]
+            cmd = [NVH, conf.get("nvh_suite", "srv"), "--seed", str(seed), "--cases", str(cases), "--steps", str(steps), "--out", path] + extra_args
+            p = subprocess.run(cmd, capture_output=True, text=True)
+            searched += 1
+            if p.returncode != 0:
+                continue
+            for l in open(path):
+                if l.startswith("oracle-failure "):
+                    parts = l.rstrip("\n").split(" ", 2)
+                    c = parts[1].split("=")[1]
+                    msg = parts[2]
+                    t = msg.split(":")[0]
+                    if t in tags:
+                        key = f"oracle:{t}:{msg.split(':',1)[1].strip()[:60].replace(' ', '_')}"
+                        R.violations.append((key, f"implementation violates the property oracle in suite {sname} seed={seed} case={c}: {msg}",
+                                             {"suite": sname, "seed": seed, "case": int(c), "cmd": " ".join(cmd) + f" --only {c}", "oracle": msg}))
+            os.unlink(path)
+            if R.violations:
+                break
+        cov["search_runs"] = searched
     R.cov["suites"][sname] = cov
